@@ -111,6 +111,40 @@ MostAlignedType *stoResize(Pointer p, ULong size)
 	for (i = 0; i < oldw && i < w; i++) q[i] = ((unsigned long *)p)[i];
 	return (MostAlignedType *) q;
 }
+#elif defined(V_STO_FIXED)
+/*
+ * Fixed-size block model: every stoAlloc returns a fresh heap object of
+ * V_STO_FIXED bytes (+ header); requests larger than that are outside the
+ * claim (assumed away).  Distinct objects of concrete size are what CBMC's
+ * memory model handles best; the request size may be symbolic.
+ */
+struct v_fblk { ULong size; ULong pad; unsigned long w[V_STO_FIXED / 8]; };
+MostAlignedType *stoAlloc(unsigned code, ULong size)
+{
+	struct v_fblk *b;
+	(void)code;
+#ifdef V_CBMC
+	__CPROVER_assume(size <= V_STO_FIXED);
+#else
+	if (size > V_STO_FIXED) { printf("REPLAY: block larger than V_STO_FIXED\n"); exit(5); }
+#endif
+	b = (struct v_fblk *) malloc(sizeof(struct v_fblk));
+#ifdef V_CBMC
+	__CPROVER_assume(b != 0);
+#endif
+	b->size = size;
+	return (MostAlignedType *) b->w;
+}
+void stoFree(Pointer p) { (void)p; }   /* never reused: a use after free still reads the old contents */
+ULong stoSize(Pointer p) { return ((ULong *)p)[-2]; }
+MostAlignedType *stoResize(Pointer p, ULong size)
+{
+	unsigned long *q = (unsigned long *) stoAlloc(0, size), i;
+	ULong old = stoSize(p);
+	for (i = 0; i < V_STO_FIXED / 8; i++)
+		if (i * 8 < old && i * 8 < size) q[i] = ((unsigned long *)p)[i];
+	return (MostAlignedType *) q;
+}
 #elif !defined(V_NO_STO_STUBS)
 
 /* store.h:  Pointer stoAlloc(unsigned code, ULong size) etc.
